@@ -246,7 +246,13 @@ pub fn gen_form(g: &mut G, max_data: usize, adversarial: bool) -> FormSpec {
         }
         let filename = if g.chance(1, 2) { Some((*g.pick(&["f.txt", "my file.bin", "ü.png", "a;b.c", "noext"])).to_string()) } else { None };
         let mime = if g.chance(1, 2) { Some((*g.pick(&["text/plain", "image/png", "application/x-custom+json; charset=utf-8", "application/octet-stream"])).to_string()) } else { None };
-        files.push(((*g.pick(NAMES)).to_string(), data, filename, mime));
+        // (no draw) a file name (or a field name) so long that the part's own header outgrows the 8 KiB copy buffer
+        let (name, filename) = match (data.len() + files.len()) % 23 {
+            7 => ((*g.pick(NAMES)).to_string(), Some(format!("{}.bin", "long-file-name-".repeat(600)))),
+            15 => ("n".repeat(8300), filename),
+            _ => ((*g.pick(NAMES)).to_string(), filename),
+        };
+        files.push((name, data, filename, mime));
     }
     FormSpec { texts, files }
 }
